@@ -37,7 +37,7 @@ func (vc *VC) inPkg(f *ssa.Function) bool {
 }
 
 func isSpecHelper(name string) bool {
-	return name == "__forall" || name == "__exists" || name == "__old" || name == "__trigger" || name == "__has" || name == "__same" || name == "__fresh"
+	return name == "__forall" || name == "__exists" || name == "__old" || name == "__trigger" || name == "__has" || name == "__same" || name == "__fresh" || name == "__disjoint"
 }
 
 func (vc *VC) isSpecDecl(name string) *SpecDecl {
@@ -90,19 +90,44 @@ func (fr *Frame) evalArgs(args []ssa.Value) []Val {
 	return out
 }
 
+// runAsserts checks and then assumes the "assert <where>" clauses of the function under proof.
+func (fr *Frame) runAsserts(where string, pos token.Pos) {
+	vc := fr.vc
+	if fr.spec == nil || vc.spec != 0 {
+		return
+	}
+	for k, cl := range fr.spec.Clauses {
+		if cl.Kind != "assert" || cl.Callee != where {
+			continue
+		}
+		cf := vc.clauseFn(cl)
+		if cf == nil {
+			continue
+		}
+		var aargs []Val
+		seenA := map[string]bool{}
+		for _, v := range vc.L.AssertVars[cl.FuncName] {
+			if seenA[v.Name] || v.Name == "_" {
+				continue
+			}
+			seenA[v.Name] = true
+			x, ok := fr.resolveVarAt(fr.cur, v)
+			if !ok {
+				x = Val{T: vc.freshConst("unresolved_"+v.Name, vc.sortOf(v.Type))}
+			}
+			aargs = append(aargs, x)
+		}
+		r := vc.evalSpec(cf, aargs, fr.st, fr.old)
+		vc.obligeAssumed("assert", fmt.Sprintf("%s#assert[%s]@%s", fr.fname(), clauseLabel(cl, k), vc.srcLine(pos)), fr.live, r.T, cl)
+		vc.assume(implies(fr.live, r.T))
+	}
+}
+
 func (fr *Frame) staticCall(t *ssa.Call, callee *ssa.Function, bindings []Val) {
 	vc := fr.vc
 	name := callee.Name()
-	if fr.isTop && fr.spec != nil && vc.spec == 0 {
-		for k, cl := range fr.spec.Clauses {
-			if cl.Kind == "assert" && cl.Callee == name {
-				if cf := vc.clauseFn(cl); cf != nil {
-					r := vc.evalSpec(cf, fr.argVals, fr.st, fr.old)
-					vc.obligeSplit("assert", fmt.Sprintf("%s#assert[%s]@%s", fr.fname(), clauseLabel(cl, k), vc.srcLine(t.Pos())), fr.live, r.T, cl)
-					vc.assume(implies(fr.live, r.T))
-				}
-			}
-		}
+	if fr.isTop {
+		fr.runAsserts(name, t.Pos())
 	}
 	if callee.Origin() != nil {
 		name = callee.Origin().Name()
@@ -157,6 +182,11 @@ func (fr *Frame) staticCall(t *ssa.Call, callee *ssa.Function, bindings []Val) {
 				p = sptr(x)
 			}
 			fr.vals[t] = Val{T: Term{fmt.Sprintf("(> (alloc %s) %s)", p.S, fr.old.nalloc.S), SBool}}
+			return
+		case name == "__disjoint":
+			// two slices whose backing arrays are different allocations (or one of them is nil)
+			a, b := args[0].T, args[1].T
+			fr.vals[t] = Val{T: Term{fmt.Sprintf("(or (= (alloc %[1]s) 0) (= (alloc %[2]s) 0) (not (= (alloc %[1]s) (alloc %[2]s))))", sptr(a).S, sptr(b).S), SBool}}
 			return
 		case name == "__same":
 			fr.vals[t] = Val{T: eq(args[0].T, args[1].T)}
@@ -684,7 +714,7 @@ func (fr *Frame) contractCall(t *ssa.Call, callee *ssa.Function, fs *FuncSpec, a
 		}
 		r := vc.evalSpec(cf, args, pre, pre)
 		if vc.spec == 0 {
-			vc.obligeSplit("pre", fmt.Sprintf("%s[%s]@%s", site, clauseLabel(cl, k), vc.srcLine(t.Pos())), fr.live, r.T, cl)
+			vc.obligeAssumed("pre", fmt.Sprintf("%s[%s]@%s", site, clauseLabel(cl, k), vc.srcLine(t.Pos())), fr.live, r.T, cl)
 		}
 		vc.assume(implies(fr.live, r.T))
 	}
@@ -825,6 +855,50 @@ func (vc *VC) evalModifiesFn(cf *ssa.Function, args []Val, st *State) []modEntry
 				vc.heapsOfType(pt, hs)
 				e.heap = sortedKeys(hs)
 			}
+		case "allfield":
+			bt := vc.rt(c.types[0])
+			sl, ok := bt.Underlying().(*types.Slice)
+			if !ok {
+				unsup("modifies x[*].f: x is not a slice")
+			}
+			// walk the field path
+			cur := sl.Elem()
+			var heapsOf []string
+			path := strings.Split(c.fieldPath, ".")
+			for pi, fname := range path {
+				st, ok := types.Unalias(vc.rt(cur)).Underlying().(*types.Struct)
+				if !ok {
+					unsup("modifies x[*].%s: not a struct", c.fieldPath)
+				}
+				found := false
+				for fi := 0; fi < st.NumFields(); fi++ {
+					if st.Field(fi).Name() != fname {
+						continue
+					}
+					found = true
+					ft := st.Field(fi).Type()
+					if pi == len(path)-1 {
+						if isStruct(vc.rt(ft)) {
+							hs := map[string]bool{}
+							vc.heapsOfType(ft, hs)
+							heapsOf = sortedKeys(hs)
+						} else {
+							h := vc.heapNameField(cur, fi)
+							vc.heapDecl(h, vc.sortOf(ft))
+							heapsOf = []string{h}
+						}
+					}
+					cur = ft
+				}
+				if !found {
+					unsup("modifies x[*].%s: no field %s", c.fieldPath, fname)
+				}
+			}
+			e.kind = "range"
+			e.heap = heapsOf
+			e.base = sptr(c.vals[0].T)
+			e.lo, e.hi = bvLit(0, 64), slen(c.vals[0].T)
+			e.typ = sl.Elem()
 		case "index", "all", "range":
 			bt := vc.rt(c.types[0])
 			switch u := bt.Underlying().(type) {
@@ -900,6 +974,7 @@ func sortedKeys(m map[string]bool) []string {
 }
 
 type modCapture struct {
+	fieldPath string
 	kind      string
 	vals      []Val
 	types     []types.Type
@@ -1604,6 +1679,12 @@ func (fr *Frame) captureMod(t *ssa.Call) {
 		mi, ok := s.v.(*ssa.MakeInterface)
 		if !ok {
 			unsup("modifies clause: entry is not an interface conversion")
+		}
+		if mc.kind == "allfield" && len(mc.vals) == 1 {
+			if sc, ok := mi.X.(*ssa.Const); ok {
+				mc.fieldPath = strings.Trim(sc.Value.ExactString(), "\"")
+				continue
+			}
 		}
 		mc.vals = append(mc.vals, fr.val(mi.X))
 		mc.types = append(mc.types, mi.X.Type())
